@@ -331,11 +331,21 @@ impl Walrus {
                 };
                 let col_name = md.owned_by;
 
+                // a block that holds an entry above 10 MiB spans several units; every header records
+                // where the block after its own starts, which gives this block's real size
+                let mut block_limit = DEFAULT_BLOCK_SIZE;
+                if md.next_block_start > block_offset {
+                    let span = md.next_block_start - block_offset;
+                    if span % DEFAULT_BLOCK_SIZE == 0 && span <= scan_end - block_offset {
+                        block_limit = span;
+                    }
+                }
+
                 // scan entries to compute used
                 let block_stub = Block {
                     id: next_block_id as u64,
                     offset: block_offset,
-                    limit: DEFAULT_BLOCK_SIZE,
+                    limit: block_limit,
                     used: 0,
                     file_path: file_path.clone(),
                     mmap: mmap.clone(),
@@ -347,7 +357,7 @@ impl Walrus {
                             used += consumed as u64;
                             in_block_off += consumed as u64;
                             entries_in_block = entries_in_block.saturating_add(1);
-                            if in_block_off >= DEFAULT_BLOCK_SIZE {
+                            if in_block_off >= block_limit {
                                 break;
                             }
                         }
@@ -361,7 +371,7 @@ impl Walrus {
                 let block = Block {
                     id: next_block_id as u64,
                     offset: block_offset,
-                    limit: DEFAULT_BLOCK_SIZE,
+                    limit: block_limit,
                     used,
                     file_path: file_path.clone(),
                     mmap: mmap.clone(),
@@ -384,7 +394,7 @@ impl Walrus {
                     );
                 }
                 next_block_id += 1;
-                block_offset += DEFAULT_BLOCK_SIZE;
+                block_offset += block_limit;
             }
         }
 
